@@ -107,6 +107,16 @@ for fl in ("global", "thread", "async"):
     add(fl, ['max_memory = "1KB"'], dict(mem=1024), inval_on=True)
     add(fl, ["limit = 1", 'policy = "lru"'], dict(limit=1, policy="lru"), inval_on=True)
     add(fl, ['policy = "tlru"', 'max_memory = "1KB"', "frequency_weight = 3.0"], dict(policy="tlru", mem=1024, fw=3.0))
+    # ---- a few triples and everything at once
+    add(fl, ['policy = "lru"', "limit = 2", "ttl = 2", 'max_memory = "1KB"'], dict(policy="lru", limit=2, ttl=2, mem=1024))
+    add(fl, ['policy = "lfu"', "limit = 1", 'max_memory = "2KB"'], dict(policy="lfu", limit=1, mem=2048))
+    add(fl, ['policy = "tlru"', "limit = 2", "ttl = 3", 'max_memory = "1KB"', "frequency_weight = 1.5", f'name = "custom_{fid[0]}"', f'tags = ["tz{fid[0]}"]', f'events = ["ez{fid[0]}"]', f'dependencies = ["dz{fid[0]}"]'],
+        dict(policy="tlru", limit=2, ttl=3, mem=1024, fw=1.5, name=f"custom_{fid[0]}", tags=[f"tz{fid[0]}"], events=[f"ez{fid[0]}"], deps=[f"dz{fid[0]}"]), cache_if=True, inval_on=True)
+    add(fl, ["limit = 1000"], dict(limit=1000))
+    add(fl, ["ttl = 100000", "limit = 2"], dict(ttl=100000, limit=2))
+    if fl == "global":
+        add(fl, ['scope = "global"', "limit = 2", 'policy = "lru"'], dict(limit=2, policy="lru"))
+        add(fl, ['scope = "global"', 'max_memory = "1KB"'], dict(mem=1024))
     # ---- attribute order must not matter
     add(fl, ["frequency_weight = 3.0", "limit = 2", 'policy = "tlru"'], dict(policy="tlru", limit=2, fw=3.0))
     add(fl, ["frequency_weight = 0.3", 'policy = "tlru"', "limit = 2"], dict(policy="tlru", limit=2, fw=0.3))
